@@ -38,7 +38,7 @@ func ge(condition, data any) (bool, error) {
 			case float64:
 				return dn >= cn, nil
 			case int64:
-				return float64(dn) > cn, nil
+				return float64(dn) >= cn, nil
 			}
 
 			return false, nil
